@@ -45,6 +45,7 @@ def sym_array(it: Interp):
     arr.attrs["__getitem__"] = BoundBuiltin(getitem)
     arr.attrs["__setitem__"] = BoundBuiltin(setitem)
     arr.attrs["shape"] = (A("cap"), num(2))
+    arr.attrs["__len__"] = BoundBuiltin(lambda i, a, k: A("cap"))
     return arr
 
 
@@ -276,6 +277,134 @@ def check_length(repo, rep):
     rep.floor(rid, 30)
 
 
+def _model_apply(model, op, drop_at, counter):
+    """reference: a plain list of rows; drop-oldest keeps the most recent rows when the length reaches a multiple of drop_at"""
+    def maybe_drop():
+        if drop_at is not None and len(model) != 0 and len(model) % drop_at == 0:
+            del model[:int(drop_at / 2)]
+    if op == "a":
+        counter[0] += 1
+        model.append(counter[0])
+        maybe_drop()
+    elif op.startswith("m"):
+        k = int(op[1:])
+        for _ in range(k):
+            counter[0] += 1
+            model.append(counter[0])
+        maybe_drop()
+    elif op == "d0":
+        del model[0]
+    elif op == "dl":
+        del model[-1]
+    elif op == "f":
+        model.clear()
+
+
+def _history_worker(args):
+    root, bucket, drop_at, seqs = args
+    repo = Repo(root)
+    out = []
+    for seq in seqs:
+        res = _run_history(repo, bucket, drop_at, seq)
+        if res:
+            out.append((seq, res))
+    return out, len(seqs)
+
+
+def _run_history(repo, bucket, drop_at, seq):
+    from vlib.absint import ClassV
+    dmod, dcls = repo.module(DNA), repo.cls(DNA, "DynamicNumpyArray")
+    it = Interp(repo, stubs=W.base_stubs())
+    try:
+        d = it.instantiate(ClassV(dcls, dmod), [(num(bucket), num(2))], {"drop_at": num(drop_at) if drop_at else None})
+    except _Raise as e:
+        return f"constructor raises {e.exc.name}"
+    model, counter = [], [0]
+    row = lambda k: Arr([A(f"r{k}a"), A(f"r{k}b")])
+    for step, op in enumerate(seq):
+        valid = not (op in ("d0", "dl") and not model)
+        if not valid:
+            return None          # not a valid list operation: history ends
+        before = counter[0]
+        try:
+            if op == "a":
+                it.call(it.getattr(d, "append"), [row(before + 1)], {})
+            elif op.startswith("m"):
+                k = int(op[1:])
+                it.call(it.getattr(d, "append_multiple"), [Arr2([row(before + 1 + j) for j in range(k)])], {})
+            elif op == "d0":
+                it.call(it.getattr(d, "delete"), [num(0)], {"axis": num(0)})
+            elif op == "dl":
+                it.call(it.getattr(d, "delete"), [num(len(model) - 1)], {"axis": num(0)})
+            elif op == "f":
+                it.call(it.getattr(d, "flush"), [], {})
+        except _Raise as e:
+            return f"step {step + 1} ({op}) raises {e.exc.name} although the operation is valid on a list of length {len(model)}"
+        except NotInFragment as e:
+            return None
+        _model_apply(model, op, drop_at, counter)
+        try:
+            ln = it.call(it.getattr(d, "__len__"), [], {})
+            if not (isinstance(ln, R) and ln.is_const() and ln.const_value() == len(model)):
+                return f"after step {step + 1} ({op}): len() is {ln!r}, the list model has {len(model)} rows"
+            rows = it.call(it.getattr(d, "__getitem__"), [SliceV(None, None)], {})
+            got = []
+            for r in rows.rows:
+                a0 = r.items[0]
+                nm = None
+                for k in range(1, counter[0] + 1):
+                    if isinstance(a0, R) and a0.same(A(f"r{k}a")):
+                        nm = k
+                got.append(nm)
+            if got != model:
+                return f"after step {step + 1} ({op}): rows are {got}, the list model has {model}"
+            if model:
+                last = it.call(it.getattr(d, "__getitem__"), [num(-1)], {})
+                if not last.items[0].same(A(f"r{model[-1]}a")):
+                    return f"after step {step + 1} ({op}): arr[-1] is not the newest row"
+        except _Raise as e:
+            return f"after step {step + 1} ({op}): reading raises {e.exc.name}"
+    return None
+
+
+def check_histories(repo, rep, tier):
+    import os
+    from concurrent.futures import ProcessPoolExecutor
+    rid = "C18-R4"
+    rep.rule(rid, "bounded operation histories on the repository's class with concrete small buckets and symbolic row values: every "
+                  "history of append / append_multiple(2,3) / delete(first) / delete(last) / flush up to length L over bucket sizes 2 and 3, "
+                  "with and without drop-oldest: no operation valid on the list model raises, and after every step length, all rows and "
+                  "arr[-1] equal the list model (drop-oldest: the list truncated to its most recent rows)")
+    L = 4 if tier == "quick" else 6
+    ops = ["a", "m2", "m3", "d0", "dl", "f"]
+    jobs = []
+    for bucket, drop_at in ((2, None), (3, None), (2, 4), (3, 6), (3, 4)):
+        seqs = []
+        for n in range(1, L + 1):
+            for seq in itertools.product(ops, repeat=n):
+                if seq[0] in ("d0", "dl", "f"):
+                    continue
+                seqs.append(seq)
+        chunk = max(1, len(seqs) // 12)
+        for i in range(0, len(seqs), chunk):
+            jobs.append((repo.root, bucket, drop_at, seqs[i:i + chunk]))
+    total = 0
+    worst = {}
+    with ProcessPoolExecutor(max_workers=min(16, os.cpu_count() or 1)) as ex:
+        for (bad, n), job in zip(ex.map(_history_worker, jobs), jobs):
+            total += n
+            for seq, msg in bad:
+                kind = "raises" if "raises" in msg else ("drop-oldest" if job[2] else "content")
+                key = f"history|{kind}|drop_at={'yes' if job[2] else 'no'}"
+                cur = worst.get(key)
+                if cur is None or len(seq) < len(cur[0]):
+                    worst[key] = (seq, msg, job[1], job[2])
+    for key, (seq, msg, bucket, drop_at) in sorted(worst.items()):
+        rep.violation(rid, key, f"bucket size {bucket}, drop_at {drop_at}, history {' '.join(seq)}: {msg}", {"history": list(seq), "bucket": bucket, "drop_at": drop_at})
+    rep.instance(rid, f"histories up to length {L}", {"histories": total, "buckets": [2, 3], "drop_at": [None, 4, 6]}, n=total)
+    rep.floor(rid, 500)
+
+
 def run(repo: Repo, rep, tier: str):
     rep.exhaustive = True
     rep.assume("backing capacity exceeds the logical length (capacity invariant across arbitrary append/delete histories is not decided)")
@@ -283,6 +412,7 @@ def run(repo: Repo, rep, tier: str):
     rep.guarded(check_item, repo, rep)
     rep.guarded(check_slices, repo, rep)
     rep.guarded(check_length, repo, rep)
+    rep.guarded(check_histories, repo, rep, tier)
     rep.undecided_item("capacity invariant (index < len(backing)) after every interleaving of append / append_multiple / delete with bucket growth")
     rep.undecided_item("drop_at (drop-oldest) option: shifted contents are values of the backing store")
     rep.undecided_item("returned row values (reads are decided as the set of backing rows denoted)")
